@@ -20,6 +20,13 @@ REG = {
     "seqcons": ("translate_seqcons", "translate", "C07_gen",
                 "harness/translate_seqcons.py + translate_enumcore.py (objective / linear / quadratic constraint assembly loops of "
                 "SequenceBasedRoutingProblem; coq/theories/PySeqCons.v, sparse.coo_array at its dense meaning)"),
+    "heursa": ("translate_heursa", "translate", "C09_gen",
+               "harness/translate_heursa.py + translate_enumcore.py (SequenceBasedRoutingProblem.make_feasible; coq/theories/PyHeur.v, PyHeurSeq.v)"),
+    "heursa_arc": ("translate_heursa", "translate_arc", "C09_arc_gen",
+                   "harness/translate_heursa.py (ArcBasedRoutingProblem.make_feasible, check_and_add_exit_arc; coq/theories/PyHeur.v, PyHeurArc.v)"),
+    "heurpath": ("translate_heurpath", "translate", "C09_path_gen",
+                 "harness/translate_heurpath.py + translate_path.py (generate_route, add_routes_better, make_feasible, get_sampled_key, get_routes of "
+                 "PathBasedRoutingProblem; coq/theories/PyHeurPath.v; the random choice and the dummy names are oracles)"),
 }
 
 
